@@ -339,6 +339,20 @@ fn builder_histories() -> Vec<Case> {
         v.push(case("List.filter(f1) rendered, .filter(f2)", base.filter(f2.clone()), "list", vec![s("Album"), a2.clone()]));
     }
     v.push(case("List.filter(f1).group_by.filter?", c::List::new(Tag::Title).filter(f1.clone()).filter(f2.clone()).group_by([Tag::Album]), "list", vec![s("Title"), a2.clone(), s("group"), s("Album")]));
+    // (round 7) every order of the two List builder steps, and each step twice (the later call wins; the grouping
+    // and the filter are independent of each other)
+    v.push(case("List.group_by.filter", c::List::new(Tag::Title).group_by([Tag::Album]).filter(f1.clone()), "list", vec![s("Title"), a1.clone(), s("group"), s("Album")]));
+    v.push(case("List.group_by(2).filter", c::List::new(Tag::Title).group_by([Tag::Album, Tag::Date]).filter(f2.clone()), "list", vec![s("Title"), a2.clone(), s("group"), s("Album"), s("group"), s("Date")]));
+    v.push(case("List.group_by(g1).group_by(g2)", c::List::new(Tag::Title).group_by([Tag::Album]).group_by([Tag::Artist]), "list", vec![s("Title"), s("group"), s("Artist")]));
+    v.push(case("List.group_by(g1).group_by(g2, g3).filter", c::List::new(Tag::Title).group_by([Tag::Album]).group_by([Tag::Artist, Tag::Date]).filter(f1.clone()), "list", vec![s("Title"), a1.clone(), s("group"), s("Artist"), s("group"), s("Date")]));
+    v.push(case("List.filter.group_by(g1).group_by(g2)", c::List::new(Tag::Title).filter(f1.clone()).group_by([Tag::Album]).group_by([Tag::Artist]), "list", vec![s("Title"), a1.clone(), s("group"), s("Artist")]));
+    v.push(case("List.group_by.filter(f1).filter(f2)", c::List::new(Tag::Title).group_by([Tag::Album]).filter(f1.clone()).filter(f2.clone()), "list", vec![s("Title"), a2.clone(), s("group"), s("Album")]));
+    {
+        let base = c::List::new(Tag::Title).group_by([Tag::Album]);
+        let _ = base.command();
+        v.push(case("List.group_by rendered, .filter", base.clone().filter(f1.clone()), "list", vec![s("Title"), a1.clone(), s("group"), s("Album")]));
+        v.push(case("List.group_by rendered, .group_by(g2)", base.group_by([Tag::Genre]), "list", vec![s("Title"), s("group"), s("Genre")]));
+    }
     v.push(case("CountGrouped.filter(f1).filter(f2)", c::CountGrouped::new(Tag::Artist).filter(f1.clone()).filter(f2.clone()), "count", vec![a2.clone(), s("group"), s("Artist")]));
     v.push(case("Count::new(f1).group_by.filter(f2)", c::Count::new(f1.clone()).group_by(Tag::Artist).filter(f2.clone()), "count", vec![a2.clone(), s("group"), s("Artist")]));
     {
